@@ -112,6 +112,9 @@ U_C02_Pos(zz) ==
 \* pack side of C03 (every-change subset): fixed runs, a descriptor on a vectorised field, nested packets
 U_C03V(zz) == {V1(<<IntF("a", n, sg, e), IntF("b", 2, FALSE, "little"), DataF("d", SzConst(2)), U1("z")>>, "full", FALSE) :
               n \in {1, 2, 3}, sg \in BOOLEAN, e \in {"default", "little"}}
+          \* a user's descriptor subclass with its OWN before-pack hook (refuses lengths above its limit), computed and assigned
+          \cup {VDecl([C0 |-> Class(DefaultOpts, <<WithDesc(U1("n"), [kind |-> "bounded", of |-> "d", limit |-> 0]), IntF("m", 2, FALSE, "default"),
+                                                  DataF("d", SzField("n"))>>)], "small", 1, FALSE)}
           \cup {V1(<<WithDesc(U1("n"), [kind |-> "autolen", of |-> "d"]), IntF("m", 2, FALSE, "default"), DataF("d", SzField("n"))>>, "full", FALSE),
                 VDecl([C0 |-> Class([DefaultOpts EXCEPT !.endian = "little"], <<IntF("a", 2, FALSE, "default"), RefF("s", "C1"), BitsF("h", 4), BitsF("l", 12)>>),
                        C1 |-> Class(DefaultOpts, <<IntF("x", 2, FALSE, "default"), DataF("d", SzMarker(<<0>>, FALSE, TRUE))>>)], "full", 1, FALSE)}
@@ -144,6 +147,10 @@ U_C12V(zz) ==
 U_C07V(zz) == {V1(BitFields(ws), "full", TRUE) : ws \in {<<4, 4>>, <<3, 5>>, <<1, 7>>, <<1, 6, 1>>, <<8>>}}
           \cup {V1(BitFields(ws), "full", FALSE) : ws \in {<<12, 4>>, <<4, 12>>, <<1, 22, 1>>, <<12, 12>>, <<5, 6, 5>>}}
           \cup {V1(<<U1("pre")>> \o BitFields(<<3, 5>>) \o <<U1("post")>>, "full", FALSE)}
+          \* a run of the class itself and a run that comes in through an embedding reference, each starting at the same index
+          \* of ITS class's field list, the own one wider: two runs, two shared integers
+          \cup {VDecl([C0 |-> Class(DefaultOpts, <<BitsF("k", 4), BitsF("q", 12)>> \o Embedded("p", "C1", <<>>, <<BitsF("h", 3), BitsF("l", 5)>>)),
+                       C1 |-> Class(DefaultOpts, <<BitsF("h", 3), BitsF("l", 5)>>)], "full", 1, FALSE)}
           \* a pack that fails in the middle of a run must leave nothing behind for the packs that follow
           \cup {V1(BitFields(ws), "fullbad", FALSE) : ws \in {<<2, 3, 3>>, <<4, 8, 4>>}}
 
